@@ -5,7 +5,9 @@ package main
 import (
 	"crypto/aes"
 	"crypto/cipher"
+	"encoding/hex"
 	"fmt"
+	"sync"
 
 	"golang.org/x/crypto/chacha20poly1305"
 	"golang.org/x/crypto/curve25519"
@@ -298,6 +300,54 @@ func (p *Path) dhInjective(s, pt, res *Term) {
 	p.dhs = append(p.dhs, dhRec{s, pt, res})
 }
 
+var lowOrderOnce sync.Once
+
+// u-coordinates (little endian, top bit clear) for which X25519 yields the all-zero output: 0, 1, the two points of
+// order 8, p-1, p, p+1. Checked against the real implementation the first time the table is used.
+var lowOrderPoints = func() [][]byte {
+	var out [][]byte
+	for _, h := range []string{
+		"0000000000000000000000000000000000000000000000000000000000000000",
+		"0100000000000000000000000000000000000000000000000000000000000000",
+		"e0eb7a7c3b41b8ae1656e3faf19fc46ada098deb9c32b1fd866205165f49b800",
+		"5f9c95bca3508c24b1d0b1559c83ef5b04445cc4581c8e86d8224eddd09f1157",
+		"ecffffffffffffffffffffffffffffffffffffffffffffffffffffffffffff7f",
+		"edffffffffffffffffffffffffffffffffffffffffffffffffffffffffffff7f",
+		"eeffffffffffffffffffffffffffffffffffffffffffffffffffffffffffff7f",
+	} {
+		b, _ := hex.DecodeString(h)
+		out = append(out, b)
+	}
+	return out
+}()
+
+func checkLowOrderTable() {
+	sc := make([]byte, 32)
+	sc[0], sc[31] = 8, 64
+	for _, lp := range lowOrderPoints {
+		if _, err := curve25519.X25519(sc, lp); err == nil {
+			panic("low-order table entry accepted by curve25519.X25519")
+		}
+	}
+	// neighbours are not of small order
+	for _, h := range []string{"02", "ebffffffffffffffffffffffffffffffffffffffffffffffffffffffffffff7f", "efffffffffffffffffffffffffffffffffffffffffffffffffffffffffffff7f"} {
+		b, _ := hex.DecodeString(h)
+		pt := make([]byte, 32)
+		copy(pt, b)
+		if _, err := curve25519.X25519(sc, pt); err != nil {
+			panic("neighbour of a low-order point rejected by curve25519.X25519")
+		}
+	}
+}
+
+func (p *Path) anyNonZero(bs []value) *Term {
+	r := p.tt.fls
+	for _, b := range bs {
+		r = p.tt.BOr(r, p.tt.Not(p.tt.Eq(b.(*Term), p.tt.Const(8, 0))))
+	}
+	return r
+}
+
 // x25519 models curve25519.X25519(scalar, point): returns 32 result bytes and an optional low-order error condition.
 func (p *Path) x25519(scalar, point []value) ([]value, *Term) {
 	if allConc(scalar, point) {
@@ -347,13 +397,41 @@ func (p *Path) x25519(scalar, point []value) ([]value, *Term) {
 			}
 			sh := p.tt.Zext(p.tt.Apply("x25519_shared", 255, a, b), 256)
 			p.dhInjective(sT, p.bytesTerm(pm), sh)
-			return p.termBytes(sh, 32), p.tt.fls
+			shb := p.termBytes(sh, 32)
+			p.assertPC(p.anyNonZero(shb)) // X25519's low-order error is exactly "all-zero output"
+			return shb, p.tt.fls
 		}
 	}
 	pT := p.bytesTerm(pm)
 	r := p.tt.Zext(p.tt.Apply("x25519", 255, sT, pT), 256)
 	low := p.tt.Apply("x25519_loworder", 0, pT)
 	p.dhInjective(sT, pT, r)
+	p.assertPC(p.tt.BOr(low, p.anyNonZero(p.termBytes(r, 32)))) // the error case is exactly "all-zero output"
+	// the points of small order (as 255-bit encodings) are exactly these seven: ties the predicate to concrete
+	// values, so that a counterexample using a degenerate point replays against the real curve code
+	lowOrderOnce.Do(checkLowOrderTable)
+	isLow := p.tt.fls
+	for _, lp := range lowOrderPoints {
+		eq := p.tt.tru
+		for j := 0; j < 32; j++ {
+			eq = p.tt.BAnd(eq, p.tt.Eq(pm[j].(*Term), p.tt.Const(8, uint64(lp[j]))))
+		}
+		isLow = p.tt.BOr(isLow, eq)
+	}
+	p.assertPC(p.tt.BAnd(p.tt.BOr(p.tt.Not(low), isLow), p.tt.BOr(p.tt.Not(isLow), low)))
+	// relation to the honest public keys seen so far: the point is pub(b) exactly when the result is shared(s, b)
+	// (forward: definition; backward: injectivity for a fixed scalar); an honest public key is not a low-order point
+	for _, pr := range p.pubs {
+		a, b := sT, pr.scalar
+		if a.id > b.id {
+			a, b = b, a
+		}
+		sh := p.tt.Zext(p.tt.Apply("x25519_shared", 255, a, b), 256)
+		eqPt := p.tt.Eq(pT, p.bytesTerm(pr.bytes))
+		eqRes := p.tt.Eq(r, sh)
+		p.assertPC(p.tt.BAnd(p.tt.BOr(p.tt.Not(eqPt), eqRes), p.tt.BOr(p.tt.Not(eqRes), eqPt)))
+		p.assertPC(p.tt.BOr(p.tt.Not(eqPt), p.tt.Not(low)))
+	}
 	return p.termBytes(r, 32), low
 }
 
@@ -413,6 +491,23 @@ func init() {
 		return nil
 	}
 
+	// the deprecated array API: same function, but a low-order point yields the all-zero output instead of an error
+	I["golang.org/x/crypto/curve25519.ScalarMult"] = func(p *Path, c *frame, fn *ssa.Function, a []value) value {
+		dst := p.cellOf(a[0])
+		sc := p.cellOf(a[1])
+		pt := p.cellOf(a[2])
+		zeros := make([]value, 32)
+		for i := range zeros {
+			zeros[i] = p.tt.Const(8, 0)
+		}
+		out, low := p.x25519([]value((*sc).(array)), []value((*pt).(array)))
+		if out == nil || p.branch(low) {
+			out = zeros
+		}
+		*dst = array(out)
+		return nil
+	}
+
 	// ---- randomness: fresh symbolic bytes (the "tape") ----
 	fill := func(p *Path, s *sliceV) {
 		if s.abs != nil {
@@ -420,8 +515,9 @@ func init() {
 		}
 		for i, n := 0, len(p.elems(s, "rand buffer")); i < n; i++ {
 			v := p.freshVar("rand", 8)
-			if p.randSmall {
-				// stated reduction: random bytes restricted to {0,1} (keeps derived lengths small)
+			if p.randSmall && !(p.pin != nil && p.eng.randSeed != 0) {
+				// stated reduction: random bytes restricted to {0,1} (keeps derived lengths small); not applied to
+				// the concrete pseudo-random runs of translator validation
 				p.assertPC(p.tt.Cmp(OpUlt, v, p.tt.Const(8, 2)))
 			}
 			if p.randZero {
